@@ -156,14 +156,19 @@ def _check_part(res, osy, spec, ds, sortkey):
         if np.any(np.diff(kv) < 0):
             res.violate("part-not-sorted", f"sortby={sortkey!r}: key column is not ascending", part=p)
             return
-        # decode the permutation from the key column (values are unique)
-        s, _d = scale_dims(got[sortkey].unit)
-        raw = kv * s / fac
-        lut = {round(float(v), 3): i for i, v in enumerate(cols[sortkey])}
+        # decode the permutation from a column whose stored numbers are unique (a byte column is not)
+        dec = next((nm for nm in names if len(set(cols[nm].tolist())) == total), None)
+        if dec is None:
+            res.inconclusive.append("no particle column with unique numbers: permutation not decodable")
+            return
+        fac_d, _ = iom.expected_unit(dec, spec)
+        s_d, _d = scale_dims(got[dec].unit)
+        raw = np.asarray(got[dec].values, dtype=float) * s_d / fac_d
+        lut = {round(float(v), 3): i for i, v in enumerate(cols[dec])}
         try:
             order = np.array([lut[round(float(v), 3)] for v in raw], dtype=int)
         except KeyError:
-            res.violate("part-values-wrong", f"sortby={sortkey!r}: key column holds numbers that are not stored values", part=p)
+            res.violate("part-values-wrong", f"sortby={sortkey!r}: column {dec!r} holds numbers that are not stored values", part=p)
             return
         if sorted(order.tolist()) != list(range(total)):
             res.violate("part-rows-lost", f"sortby={sortkey!r}: rows are not a permutation of the stored rows", part=p)
